@@ -63,7 +63,7 @@ Print Assumptions C05_forced_only_keys_keep_everything.
    accepted, the capacity NewHarvest gets is non-negative, at most the daemon maximum, at most (for log events) /
    equal to (other categories) min(maximum, collector limit), and a reservoir of that capacity never holds more,
    whatever is offered; log events are further capped by a valid agent limit scaled to the report period p (ns):
-   agent * p / 60 s, and the capacity is exactly the minimum of the two. *)
+   agent * p / 60 s, and the capacity is exactly the minimum of the two; an agent value >= 2^63 is ignored. *)
 Theorem C05_event_bound : forall a r e, negotiate a r = Some e ->
   forall k ops,
     let cap := harvest_cap e k in
@@ -76,7 +76,10 @@ Theorem C05_event_bound : forall a r e, negotiate a r = Some e ->
        let p := ec_period (cfg_of (cfgs e) ELog) in
        0 <= agent -> 0 <= p ->
        cap <= agent * p / 60000000000 /\
-       forall j, collector_jval r ELog = Some j -> cap = Z.min (capped 20000 j) (agent * p / 60000000000)).
+       forall j, collector_jval r ELog = Some j -> cap = Z.min (capped 20000 j) (agent * p / 60000000000)) /\
+    (* an agent value >= 2^63 (negative as the daemon's int) is ignored outright (fixes 61ac173, b82e6ce) *)
+    (k = ELog -> two63 <= a_log a < two64 ->
+       forall j, collector_jval r ELog = Some j -> cap = capped 20000 j).
 Proof. exact event_bound. Qed.
 Print Assumptions C05_event_bound.
 
